@@ -90,8 +90,10 @@ def _pt(rng, scale=1.0):
 
 def _radius(rng):
     k = rng.random()
-    if k < 0.7:
+    if k < 0.55:
         return _r6(10 ** rng.uniform(-3, 3))
+    if k < 0.7:
+        return float("%.3e" % (10 ** rng.uniform(-6, 6)))  # very small / very large units
     if k < 0.8:
         return rng.choice([1, 2, 3, 10])  # a Python int where a float is documented
     return rng.choice([1.0, 1e-3, 1e3, 0.5, 2.0])
@@ -189,7 +191,8 @@ def cases(seed, tier):
         add("icosphere", {"n_refine": n, "center": _center(rng, r), "radius": r})
     for i in range(40 * rep):
         n = [4, 5, 6, 7, 8][i % 5] if i < 10 else rng.randint(4, 60 if quick else 400)
-        add("sphere_fibonacci", {"n_pts": n, "radius": _radius(rng), "build_surface": i % 6 != 5})
+        r = [1e-3, 3e-4, 1e-5, 2e-7, 1e4, 3e6][(i // 4) % 6] if i % 4 == 1 else _radius(rng)  # small and large spheres: orientation must not depend on the unit
+        add("sphere_fibonacci", {"n_pts": n, "radius": r, "build_surface": i % 6 != 5})
     for (a, b) in _pairs(rng, 2, 3, hi, 90 if quick else 1200, exhaustive_to=5 if quick else 40):
         for _ in range(geo):
             r = _radius(rng)
